@@ -53,9 +53,17 @@ fn hex(b: &[u8]) -> String {
 }
 
 fn digest(b: &[u8]) -> Value {
+    // (sum of bytes, sum of running sums): the cheap order-sensitive checksum the model computes
+    let (mut s1, mut s2) = (0u128, 0u128);
+    for &x in b {
+        s1 += x as u128;
+        s2 += s1;
+    }
     let mut v = json!({
         "len": b.len(),
         "xxh64": xxhash_rust::xxh64::xxh64(b, 0).to_string(),
+        "s1": s1.to_string(),
+        "s2": s2.to_string(),
     });
     if b.len() <= 64 {
         v["hex"] = json!(hex(b));
@@ -185,9 +193,9 @@ fn st_json(st: &VerifAccState) -> Value {
     })
 }
 
-fn step_json(st: &VerifAccState) -> Value {
+fn step_json(op: usize, st: &VerifAccState) -> Value {
     let l = |o: &Option<Vec<u8>>| o.as_ref().map(|b| b.len());
-    json!([l(&st.stdout), st.stdout_done, l(&st.stderr), st.stderr_done, l(&st.combined), st.combined_done])
+    json!([op, l(&st.stdout), st.stdout_done, l(&st.stderr), st.stderr_done, l(&st.combined), st.combined_done])
 }
 
 fn run_pipes(case: &Value, combined: bool) -> Value {
@@ -242,7 +250,7 @@ fn run_pipes(case: &Value, combined: bool) -> Value {
             }
         };
 
-        'ops: for op in &ops {
+        'ops: for (op_idx, op) in ops.iter().enumerate() {
             match op[0].as_str().unwrap_or("") {
                 k @ ("w" | "g") => {
                     let s = op[1].as_u64().unwrap_or(0) as usize;
@@ -276,11 +284,11 @@ fn run_pipes(case: &Value, combined: bool) -> Value {
                     writers[s] = None;
                 }
                 k @ ("r" | "d") => {
-                    let mut left = if k == "r" { op[1].as_u64().unwrap_or(0) } else { u64::MAX };
+                    let mut left = if k == "r" { op[1].as_u64().unwrap_or(0) } else { 1_000_000 };
                     while left > 0 && can_progress(&acc.state(), &written, &writers) {
                         left -= 1;
                         match tokio::time::timeout(Duration::from_secs(20), acc.fill_buf()).await {
-                            Ok(()) => trace.push(step_json(&acc.state())),
+                            Ok(()) => trace.push(step_json(op_idx, &acc.state())),
                             Err(_) => {
                                 hang = true;
                                 break 'ops;
